@@ -8,11 +8,17 @@ PARAMS_NAME = "ParamsC07"
 HEADER = "From Hy Require Import lib.Harness model.C07_UDPSessions corr.C07_Corr.\nFrom Coq Require Import NArith.\nLocal Open Scope N_scope.\n"
 RULE = ("seeded generator: histories of 10-70 operations on udpSessionManager.Run inside a testing/synctest bubble (fake clock): client "
         "datagrams (complete / never-completed fragment) over <= 6 session ids, scripted reads and read errors on the sessions' sockets, "
-        "injected dial / hook / SendMessage / WriteTo failures, a slow event logger (keeps a closed entry in the table for 10 ms), sleeps chosen around the idle timeout and the 1 s sweep (timeout-1, timeout, "
+        "injected dial / hook / SendMessage / WriteTo failures, a slow event logger (keeps a closed entry in the table for 10 ms), "
+        "slow request hooks / outbound dials (the fake Hook / UDP() sleeps on the fake clock for about timeout + one sweep interval or more, so the sweep "
+        "that selects the still idle entry runs while its first dial is in progress; other traffic, sleeps and quiescent points fall inside the dial), "
+        "every way a session can end (idle expiry, reply-loop read error, SendMessage error, dial failure, hook failure, fragment-only expiry) followed at "
+        "once by a datagram with the same id and no other id in between, sleeps chosen around the idle timeout and the 1 s sweep (timeout-1, timeout, "
         "timeout+1, 999/1000/1001 ms ...), bursts of operations issued without waiting for quiescence (real interleavings of receive loop, "
         "reply loops and sweeper), final connection loss. The boundary log (fake udpIO / UDPConn / logger calls with fake-clock times) is "
         "replayed against the Coq LTS (nondeterministic-automaton simulation with tau-closure) and must end in a terminal state with an "
-        "empty table. Non-trivial = the history contains an idle expiry, a session id reused on a new socket, or an injected fault. "
+        "empty table. The harness verdict (implementation alone) includes: after a session's Close event has settled the next complete datagram of "
+        "that id must call the hook, log New, dial a new socket and be written to it; no dial returns a socket for a session already reported closed; "
+        "Count() at every quiescent point equals the number of ids with a live session; every socket closed exactly once; no goroutine left at bubble exit. Non-trivial = the history contains an idle expiry, a session id reused on a new socket, or an injected fault. "
         "Distinct = distinct JSON case.")
 ASSUMPTIONS = [
     "a closed UDPConn returns an error from every later ReadFrom/WriteTo, and ReadFrom blocked on it returns (socket semantics, modelled in the LTS guards)",
@@ -27,10 +33,79 @@ EXTRA_TARGETS = ["corr/C07_Corr.vo"]
 INTERVAL = 1000
 
 
+def motif_reuse(rng, sid, timeout):
+    """a session of `sid` ends in one of the ways the code knows, then the same id is used again at once
+    (no datagram of another id in between), usually after quiescence, sometimes racing with the close."""
+    how = rng.choice(["idle", "idle", "idle", "readerr", "senderr", "dialfail", "hookfail", "fragidle", "idle+frag"])
+    over = timeout + rng.choice([1000, 1000, 1001, 1500, 1999, 2000])
+    if how in ("idle", "idle+frag"):
+        ops = [[0, sid, 1], [3], [2, over], [3]]
+    elif how == "readerr":
+        ops = [[0, sid, 1], [3], [1, sid, 0], [3]]
+    elif how == "senderr":
+        ops = [[0, sid, 1], [3], [6, 1], [1, sid, 1], [3]]
+    elif how == "dialfail":
+        ops = [[3], [4, 1], [0, sid, 1], [3]]
+    elif how == "hookfail":
+        ops = [[3], [5, 1], [0, sid, 1], [3]]
+    else:
+        ops = [[0, sid, 0], [3], [2, over], [3]]
+    if rng.random() < 0.2:
+        ops.pop()               # no quiescence: the reuse races with the close
+    if rng.random() < 0.3:
+        ops.append([2, rng.choice([1, 10, 11, 500])])
+    if how == "idle+frag":
+        ops.append([0, sid, 0])
+    ops += [[0, sid, 1]]
+    if rng.random() < 0.5:
+        ops += [[0, sid, 1]]
+    ops += [[3], [1, sid, 1], [3]]
+    return ops
+
+
+def motif_slow_dial(rng, sid, others, timeout):
+    """the next Hook / UDP() call sleeps on the fake clock; traffic, sleeps and quiescent points fall inside the dial"""
+    ms = rng.choice([timeout + 1001, timeout + 1001, timeout + 1500, timeout + 2000, 3 * timeout + 1000, 10000,
+                     timeout + 1000, timeout + 999, timeout + 1, timeout, timeout - 1, 1001, 1000, 999, 500, 10])
+    which = rng.choice([10, 10, 10, 11, 11, 12])
+    ops = [[3]] if rng.random() < 0.7 else []
+    if rng.random() < 0.3:
+        ops += [[2, rng.choice([1, 250, 500, 999])]]
+    if which == 12:
+        ops += [[11, ms // 2], [10, ms - ms // 2]]
+    else:
+        ops += [[which, ms]]
+    if rng.random() < 0.15:
+        ops += [[4, 1]]             # the slow dial fails in the end
+    ops += [[0, sid, 1]]
+    left = ms
+    for _ in range(rng.choice([0, 1, 2, 4])):
+        x = rng.random()
+        o = rng.choice(others) if others else sid
+        if x < 0.3:
+            ops.append([0, sid, rng.choice([1, 1, 0])])     # queued behind the dial
+        elif x < 0.5:
+            ops.append([0, o, 1])
+        elif x < 0.65:
+            ops.append([1, o, 1])
+        elif x < 0.8:
+            ops.append([3])
+        else:
+            d = rng.choice([1, 500, 999, 1000, 1001, max(1, left // 2)])
+            ops += [[3], [2, d]]
+            left -= d
+    if rng.random() < 0.8:
+        ops += [[3], [2, max(1, left) + rng.choice([0, 1, 1000, 2000])], [3]]
+    ops += [[1, sid, 1], [0, sid, 1], [3]]
+    return ops
+
+
 def gen_history(rng, idx):
     timeout = rng.choice([1500, 2000, 2000, 2500, 3000, 1000, 700])
     sids = rng.sample([1, 2, 3, 4, 5, 6, 77, 4294967295], rng.choice([1, 2, 3, 6]))
     nops = rng.randint(10, 70)
+    p_reuse = rng.choice([0.0, 0.03, 0.06])
+    p_slow = rng.choice([0.0, 0.0, 0.03, 0.06])
     burst = rng.choice([0.0, 0.2, 0.5, 0.9])
     faulty = rng.random() < 0.6
     sleeps = [1, 10, 250, 500, 990, 999, 1000, 1001, 1500, timeout - 1000, timeout - 1, timeout, timeout + 1,
@@ -40,6 +115,13 @@ def gen_history(rng, idx):
     for _ in range(nops):
         x = rng.random()
         sid = rng.choice(sids)
+        y = rng.random()
+        if y < p_reuse:
+            ops += motif_reuse(rng, sid, timeout)
+            continue
+        if y < p_reuse + p_slow:
+            ops += motif_slow_dial(rng, sid, [q for q in sids if q != sid], timeout)
+            continue
         if x < 0.38:
             ops.append([0, sid, 1])
         elif x < 0.45:
@@ -97,10 +179,39 @@ def gen(rng, tier):
         {"timeout": 3000, "ops": [[0, 4, 1], [3], [9, 1], [1, 4, 0], [2, 5], [0, 4, 1], [0, 4, 0], [3], [2, 20], [0, 4, 1], [3], [8]]},
         # connection lost with live sessions and pending replies, everything at once
         {"timeout": 3000, "ops": [[0, 1, 1], [0, 2, 1], [0, 3, 1], [1, 1, 1], [1, 2, 1], [6, 1], [1, 3, 1], [8]]},
+        # a slow first dial outlasts timeout + sweep interval: the sweep that selects the idle entry runs during the dial
+        {"timeout": 2000, "ops": [[3], [10, 3500], [0, 7, 1], [3], [2, 4000], [3], [1, 7, 1], [0, 7, 1], [3], [2, 3100], [8]]},
+        # the same with a slow hook, another session working meanwhile, and the connection lost during the dial
+        {"timeout": 1000, "ops": [[0, 2, 1], [3], [11, 5000], [0, 7, 1], [0, 2, 1], [1, 2, 1], [3], [2, 700], [0, 2, 1], [8]]},
+        # an id reused immediately after: idle expiry, read error, dial failure (no other id in between)
+        {"timeout": 1000, "ops": [[0, 7, 1], [3], [2, 2000], [3], [0, 7, 1], [3], [1, 7, 0], [3], [0, 7, 1], [3], [4, 1], [2, 2500], [3],
+                                  [0, 7, 1], [3], [0, 7, 1], [1, 7, 1], [3], [8]]},
     ]
-    for i in range(n):
-        cases.append(gen_history(rng, i))
+    k = 0
+    while len(cases) < n + 11:
+        sub = random_sub(rng, k)
+        k += 1
+        cases.append(sub)
     return cases
+
+
+def random_sub(rng, k):
+    """every 4th history is built around the two motifs (one or two ids only); the rest is the general mix"""
+    if k % 4 != 3:
+        return gen_history(rng, k)
+    timeout = rng.choice([700, 1000, 1500, 2000, 3000])
+    sids = rng.sample([1, 2, 3, 77, 4294967295], rng.choice([1, 1, 2]))
+    ops = []
+    for _ in range(rng.randint(2, 4)):
+        sid = rng.choice(sids)
+        if rng.random() < 0.5:
+            ops += motif_reuse(rng, sid, timeout)
+        else:
+            ops += motif_slow_dial(rng, sid, [q for q in sids if q != sid], timeout)
+        if rng.random() < 0.3:
+            ops += [[2, rng.choice([1, 999, 1000, timeout, timeout + 1000])]]
+    ops.append([8])
+    return {"timeout": timeout, "ops": ops}
 
 
 def events(o):
@@ -144,7 +255,8 @@ def events(o):
 def to_coq(c, o):
     if "log" not in o:
         return None
-    return "CHist %d %d [%s]" % (c["timeout"], o.get("count", 0), ";".join(events(o)))
+    slow = any(op[0] in (10, 11) for op in c["ops"])
+    return "CHist %d %d %s [%s]" % (c["timeout"], o.get("count", 0), "true" if slow else "false", ";".join(events(o)))
 
 
 def _feat(c, o):
@@ -169,11 +281,12 @@ def klass(c, o):
     expiry, reuse, fault = _feat(c, o)
     nw = sum(1 for op in c["ops"] if op[0] == 3)
     burst = "burst" if nw * 2 < len(c["ops"]) - 2 else "stepwise"
-    return "%s:%s%s%s" % (burst, "expiry+" if expiry else "", "reuse+" if reuse else "", "fault" if fault else "nofault")
+    return "%s:%s%s%s%s" % (burst, "expiry+" if expiry else "", "reuse+" if reuse else "", "sweep-during-dial+" if o.get("overlaps") else "",
+                            "fault" if fault else "nofault")
 
 
 def nontrivial(c, o):
-    return any(_feat(c, o))
+    return any(_feat(c, o)) or bool(o.get("overlaps"))
 
 
 def fingerprint(c, o):
